@@ -165,6 +165,7 @@ jcmd_jwe_fmt(int argc, char *argv[])
     } else {
         if (!opt.detach)
             fprintf(opt.output, "\",");
+        json_object_del(opt.obj, "ciphertext");
         json_dumpf(opt.obj, opt.output,
                    JSON_EMBED | JSON_COMPACT | JSON_SORT_KEYS);
         fprintf(opt.output, "}");
